@@ -3,7 +3,7 @@
    proposal with one transaction it does not hold, and asks the application for it.  Everything is computed with the
    executable model (vm_compute). *)
 From Coq Require Import ZArith List.
-From DbftV Require Import Gates NoPanic P10 P12 Replay D1 S1.
+From DbftV Require Import Gates NoPanic P10 P12 Replay D1 S1 SignEpoch.
 Open Scope Z_scope.
 
 Definition cfg0 := mkCfg 1 (-1) false.
@@ -90,3 +90,9 @@ Proof.
   destruct (has_call_sound s1_cfg s1 is_preblock ltac:(vm_compute; reflexivity)) as (st & ev & sc & st' & tr & s & c & HR & Hs & Hin & Hc).
   destruct c; try discriminate Hc. eexists s1_cfg, st, ev, sc, st', tr, s, _, _. eauto.
 Qed.
+
+(* the hypotheses of the one-signature theorem (C03) are met by an epoch in which the node does sign: the first eight calls of
+   the recorded round S1 (Start, proposal, responses, pre-commits) *)
+Example an_epoch_with_a_signature :
+  exists st g, Epoch s1_cfg st g /\ KS 0 g /\ zlen (Validators st) <= 65536 /\ nsign g = 1%nat.
+Proof. exact (epoch_okb_sound s1_cfg (firstn 8 s1) 0 ltac:(vm_compute; reflexivity)). Qed.
